@@ -112,6 +112,17 @@ class Check:
             for st in steps:
                 if st['op'] in ('reconfigure', 'wipe') and (st.get('fault') or {}).get('kind') == 'armed' and rx.random() < 0.6:
                     st['fault'] = {'kind': 'armed-late'}
+        # (extra stream) an array option holding several entries whose choice list then loses one of them (and gets a new default)
+        touched = any(st['op'] == 'edit' and st['edit'].get('where') == 'top' and 'a' in (st['edit'].get('name'), (st['edit'].get('opt') or {}).get('name')) for st in steps)
+        if any(o['name'] == 'a' for o in spec['top']) and not touched and steps and steps[0]['op'] == 'setup' and not steps[0].get('fault') and rx.random() < 0.35:
+            val = rx.choice([['x', 'y'], ['y', 'z'], ['x', 'z'], ['x', 'y', 'z']])
+            rm = rx.choice(val)
+            keep = [c for c in ['x', 'y', 'z'] if c != rm] + rx.choice([[], ['w']])
+            newdef = [rx.choice([c for c in keep if c not in val] or keep)]
+            pos = rx.randint(1, min(len(steps), 3))
+            if all(st['op'] in ('configure', 'reconfigure', 'edit') and not st.get('fault') for st in steps[1:pos]):
+                steps[pos:pos] = [{'op': 'configure', 'D': {'a': ','.join(val)}},
+                                  {'op': 'edit', 'edit': {'where': 'top', 'kind': 'choices', 'name': 'a', 'choices': keep, 'value': newdef}}]
         return {'kind': 'c08', 'spec': spec, 'steps': steps, 'faulty': faulty}
 
     @staticmethod
